@@ -328,16 +328,27 @@ Definition api_agree
    every subgraph, then every function and its subgraphs); a graph-like has (metadata?, doc?) and nodes (metadata?, doc?). *)
 Record cgraph : Type := { cg_meta : bool; cg_doc : bool; cg_nodes : list (bool * bool) }.
 
-Definition clear_graph_before_fix (g : cgraph) : cgraph * bool :=
+(* what the pass does to one visited graph-like (all nodes: metadata cleared, doc string None; the owner's
+   metadata/doc cleared when it has any, at its first node) *)
+Definition clear_state (g : cgraph) : cgraph :=
   match cg_nodes g with
-  | [] => (g, false)          (* a graph-like without nodes is never looked at *)
+  | [] => g                   (* a graph-like without nodes is never looked at *)
   | _ =>
       let dirty := cg_meta g || cg_doc g in
-      ({| cg_meta := if dirty then false else cg_meta g; cg_doc := if dirty then false else cg_doc g;
-          cg_nodes := map (fun _ => (false, false)) (cg_nodes g) |},
-       existsb fst (cg_nodes g) || dirty)
+      {| cg_meta := if dirty then false else cg_meta g; cg_doc := if dirty then false else cg_doc g;
+         cg_nodes := map (fun _ => (false, false)) (cg_nodes g) |}
   end.
 
+(* current code: `if node.metadata_props or node.doc_string: modified = True` *)
+Definition clear_graph (g : cgraph) : cgraph * bool :=
+  (clear_state g,
+   match cg_nodes g with [] => false | _ => existsb (fun n => fst n || snd n) (cg_nodes g) || cg_meta g || cg_doc g end).
+Definition clear_pass (m : list cgraph) : list cgraph * bool :=
+  (map (fun g => fst (clear_graph g)) m, existsb (fun g => snd (clear_graph g)) m).
+
+(* before fix fce58f3: only `if node.metadata_props:` counted *)
+Definition clear_graph_before_fix (g : cgraph) : cgraph * bool :=
+  (clear_state g, match cg_nodes g with [] => false | _ => existsb fst (cg_nodes g) || (cg_meta g || cg_doc g) end).
 Definition clear_pass_before_fix (m : list cgraph) : list cgraph * bool :=
   (map (fun g => fst (clear_graph_before_fix g)) m, existsb (fun g => snd (clear_graph_before_fix g)) m).
 
@@ -345,16 +356,6 @@ Definition cgraph_eqb (a b : cgraph) : bool :=
   Bool.eqb (cg_meta a) (cg_meta b) && Bool.eqb (cg_doc a) (cg_doc b)
   && list_eqb (fun x y => Bool.eqb (fst x) (fst y) && Bool.eqb (snd x) (snd y)) (cg_nodes a) (cg_nodes b).
 
-Definition clear_agree_before_fix (case : list cgraph * (list cgraph * bool)) : bool :=
-  let '(m, (m', f)) := case in
-  let '(pm, pf) := clear_pass_before_fix m in list_eqb cgraph_eqb pm m' && Bool.eqb pf f.
-
-(* repaired flag (proposed_fixes/C14-clear-docstring-flag.diff): a cleared node doc string counts *)
-Definition clear_graph (g : cgraph) : cgraph * bool :=
-  (fst (clear_graph_before_fix g),
-   match cg_nodes g with [] => false | _ => existsb (fun n => fst n || snd n) (cg_nodes g) || cg_meta g || cg_doc g end).
-Definition clear_pass (m : list cgraph) : list cgraph * bool :=
-  (map (fun g => fst (clear_graph g)) m, existsb (fun g => snd (clear_graph g)) m).
 Definition clear_agree (case : list cgraph * (list cgraph * bool)) : bool :=
   let '(m, (m', f)) := case in
   let '(pm, pf) := clear_pass m in list_eqb cgraph_eqb pm m' && Bool.eqb pf f.
@@ -376,27 +377,10 @@ Fixpoint drop_nones (l : list (option positive)) : list (option positive) :=
 Definition trim (l : list (option positive)) : list (option positive) := rev (drop_nones (rev l)).
 Definition trim_node (n : dnode) : dnode := {| d_id := d_id n; d_ins := trim (d_ins n); d_outs := d_outs n |}.
 
-(* reversed(graph): the nodes after n have been processed (rest'), the nodes before it not yet *)
-Fixpoint sweep_before_fix (outs : list positive) (before : list dnode) (l : list dnode) : list dnode * nat :=
-  match l with
-  | [] => ([], O)
-  | n :: rest =>
-      let '(rest', c) := sweep_before_fix outs (before ++ [n]) rest in
-      let others := before ++ n :: rest' in
-      if forallb (fun o => negb (pmem o outs) && negb (used_in o others)) (d_outs n)
-      then (rest', S c)
-      else (trim_node n :: rest', c)
-  end.
-
-Definition dce_before_fix (g : dgraph) : dgraph * bool :=
-  let '(ns, c) := sweep_before_fix (d_outputs g) [] (d_nodes g) in
-  let keep := fun v => used_in v ns || pmem v (d_outputs g) || pmem v (d_inputs g) in
-  let inits := filter keep (d_inits g) in
-  let c2 := (c + (length (d_inits g) - length inits))%nat in
-  ({| d_nodes := ns; d_outputs := d_outputs g; d_inputs := d_inputs g; d_inits := inits |}, negb (Nat.eqb c2 0)).
-
-(* repaired count (proposed_fixes/C14-dce_before_fix-count-trims.diff): trimming a kept node counts *)
 Definition ins_eqb (a b : list (option positive)) : bool := list_eqb (option_eqb Pos.eqb) a b.
+
+(* reversed(graph): the nodes after n have been processed (rest'), the nodes before it not yet.
+   current code: a kept node whose trailing None inputs are trimmed counts as one modification *)
 Fixpoint sweep (outs : list positive) (before : list dnode) (l : list dnode) : list dnode * nat :=
   match l with
   | [] => ([], O)
@@ -415,6 +399,29 @@ Definition dce (g : dgraph) : dgraph * bool :=
   let c2 := (c + (length (d_inits g) - length inits))%nat in
   ({| d_nodes := ns; d_outputs := d_outputs g; d_inputs := d_inputs g; d_inits := inits |}, negb (Nat.eqb c2 0)).
 
+(* before fix 16a8fe8: trimming was not counted *)
+Fixpoint sweep_before_fix (outs : list positive) (before : list dnode) (l : list dnode) : list dnode * nat :=
+  match l with
+  | [] => ([], O)
+  | n :: rest =>
+      let '(rest', c) := sweep_before_fix outs (before ++ [n]) rest in
+      let others := before ++ n :: rest' in
+      if forallb (fun o => negb (pmem o outs) && negb (used_in o others)) (d_outs n)
+      then (rest', S c)
+      else (trim_node n :: rest', c)
+  end.
+
+Definition dce_before_fix (g : dgraph) : dgraph * bool :=
+  let '(ns, c) := sweep_before_fix (d_outputs g) [] (d_nodes g) in
+  let keep := fun v => used_in v ns || pmem v (d_outputs g) || pmem v (d_inputs g) in
+  let inits := filter keep (d_inits g) in
+  let c2 := (c + (length (d_inits g) - length inits))%nat in
+  ({| d_nodes := ns; d_outputs := d_outputs g; d_inputs := d_inputs g; d_inits := inits |}, negb (Nat.eqb c2 0)).
+
+(* measure: nodes + initializers + kept nodes that still carry trailing None inputs *)
+Definition untrimmed (n : dnode) : bool := negb (ins_eqb (trim (d_ins n)) (d_ins n)).
+Definition dce_mu (g : dgraph) : nat :=
+  (length (d_nodes g) + length (d_inits g) + length (filter untrimmed (d_nodes g)))%nat.
 Definition dce_size (g : dgraph) : nat := (length (d_nodes g) + length (d_inits g))%nat.
 
 Definition oppos_eqb := option_eqb Pos.eqb.
@@ -424,14 +431,12 @@ Definition dgraph_eqb (a b : dgraph) : bool :=
   list_eqb dnode_eqb (d_nodes a) (d_nodes b) && list_eqb Pos.eqb (d_outputs a) (d_outputs b)
   && list_eqb Pos.eqb (d_inputs a) (d_inputs b) && list_eqb Pos.eqb (d_inits a) (d_inits b).
 
-Definition dce_agree_before_fix (case : dgraph * (dgraph * bool)) : bool :=
-  let '(g, (g', f)) := case in let '(pg, pf) := dce_before_fix g in dgraph_eqb pg g' && Bool.eqb pf f.
-
 Definition dce_agree (case : dgraph * (dgraph * bool)) : bool :=
   let '(g, (g', f)) := case in let '(pg, pf) := dce g in dgraph_eqb pg g' && Bool.eqb pf f.
 
-(* ---- TopologicalSortPass: the flag is computed from the top-level node lists of the main graph and
-   the functions only; Graph.sort() (C12) also reorders every subgraph.  sort is abstract. *)
+(* ---- TopologicalSortPass.  Graph.sort() (C12; abstract `sort`) reorders the graph and, recursively, every
+   subgraph.  Current code compares the full recursive node sequences before/after; the sequences are equal iff
+   every node list of the model is unchanged (a node's subgraph nodes follow it in the sequence). *)
 Record tmodel : Type := { t_main : list positive; t_funcs : list (list positive); t_subs : list (list positive) }.
 
 Fixpoint first_diff (a b : list positive) : bool :=     (* for node, new_node in zip(a, b): node is not new_node *)
@@ -440,27 +445,25 @@ Fixpoint first_diff (a b : list positive) : bool :=     (* for node, new_node in
   | _, _ => false
   end.
 
-Section Topo.
-  Variable sort : list positive -> list positive.
-  Definition topo_pass_before_fix (m : tmodel) : tmodel * bool :=
-    let m' := {| t_main := sort (t_main m); t_funcs := map sort (t_funcs m); t_subs := map sort (t_subs m) |} in
-    (m', first_diff (t_main m ++ concat (t_funcs m)) (t_main m' ++ concat (t_funcs m'))).
-End Topo.
-
-(* repaired flag (proposed_fixes/C14-toposort-flag.diff): every node list, subgraphs included, is compared *)
 Definition lists_eqb (a b : list (list positive)) : bool := list_eqb (list_eqb Pos.eqb) a b.
 Definition tmodel_eqb (a b : tmodel) : bool :=
   list_eqb Pos.eqb (t_main a) (t_main b) && lists_eqb (t_funcs a) (t_funcs b) && lists_eqb (t_subs a) (t_subs b).
-Definition topo_pass (sort : list positive -> list positive) (m : tmodel) : tmodel * bool :=
-  let m' := fst (topo_pass_before_fix sort m) in (m', negb (tmodel_eqb m m')).
+
+Section Topo.
+  Variable sort : list positive -> list positive.
+  Definition topo_state (m : tmodel) : tmodel :=
+    {| t_main := sort (t_main m); t_funcs := map sort (t_funcs m); t_subs := map sort (t_subs m) |}.
+  Definition topo_pass (m : tmodel) : tmodel * bool := (topo_state m, negb (tmodel_eqb m (topo_state m))).
+  (* before fix 733a9c1: only the top-level lists of the main graph and the functions were compared *)
+  Definition topo_pass_before_fix (m : tmodel) : tmodel * bool :=
+    let m' := topo_state m in
+    (m', first_diff (t_main m ++ concat (t_funcs m)) (t_main m' ++ concat (t_funcs m'))).
+End Topo.
 
 (* correspondence: the observed sorted lists are given; only the flag computation is predicted *)
 Definition topo_case : Type :=
   list positive * list (list positive) * list (list positive)
   * (list positive * list (list positive) * list (list positive)) * bool.
-Definition topo_agree_before_fix (case : topo_case) : bool :=
-  let '(main, funcs, subs, (smain, sfuncs, ssubs), f) := case in
-  Bool.eqb f (first_diff (main ++ concat funcs) (smain ++ concat sfuncs)).
 Definition topo_agree (case : topo_case) : bool :=
   let '(main, funcs, subs, (smain, sfuncs, ssubs), f) := case in
   Bool.eqb f (negb (tmodel_eqb {| t_main := main; t_funcs := funcs; t_subs := subs |}
